@@ -289,8 +289,8 @@ def step (code : Code) (lim : Limits) (s : VMState) (i : RInstr) (sp : Span) : S
             | (.ok ds, s2) =>
               let joined := ",".intercalate ds
               let st' := { s2.st with trig := s2.st.trig ++ s!"{cb}<-{tr}({joined});" }
-              -- hostcall returns nil, which the VM pushes as a nil pointer
-              .next (advance (push1 { s2 with st := st' } .null))
+              -- the host call has no result: nothing is pushed
+              .next (advance { s2 with st := st' })
             | (.error c, s2) => ctlToRes c s2
           | _ => .panic "trigger operands" s
         else .panic "invalid hostcall" s
